@@ -206,6 +206,10 @@ func main() {
 				if len(c.MappingFields) > 0 { // only these fields are indexed (all keyword); nil mapping: every field
 					mp.M = seq.Mapping{}
 					for _, f := range c.MappingFields {
+						if name, ok := strings.CutSuffix(f, ":text"); ok { // "name:text": a text field
+							mp.M[name] = seq.NewSingleType(seq.TokenizerTypeText, "", 0)
+							continue
+						}
 						mp.M[f] = seq.NewSingleType(seq.TokenizerTypeKeyword, "", 0)
 					}
 				}
